@@ -502,9 +502,12 @@ impl GitignoreBuilder {
         if line.as_bytes().last() == Some(&b'/') {
             glob.is_only_dir = true;
             line = &line[..line.len() - 1];
-            // If the slash was escaped, then remove the escape.
+            // If the slash was escaped, then remove the escape. (A backslash
+            // that is itself escaped doesn't escape anything.)
             // See: https://github.com/BurntSushi/ripgrep/issues/2236
-            if line.as_bytes().last() == Some(&b'\\') {
+            let backslashes =
+                line.bytes().rev().take_while(|&b| b == b'\\').count();
+            if backslashes % 2 == 1 {
                 line = &line[..line.len() - 1];
             }
         }
